@@ -1,0 +1,314 @@
+//! Verification hooks. Compiled only with `--cfg optrs_verif`; never part of a normal build.
+//!
+//! Everything in the crate is private, so an external harness needs a door: this module re-exports
+//! the public types that live in private modules and returns private state as plain data.
+#![allow(dead_code)]
+
+pub use crate::atoms::{Atom, AtomicNumber};
+pub use crate::coordinates::{angle_value, Point, Vector3D};
+pub use crate::ff::forcefield::{EnergyFunction, Forcefield};
+pub use crate::ff::rb::core::RB;
+pub use crate::ff::uff::core::UFF;
+pub use crate::io::xyz::XYZFile;
+pub use crate::molecule::Molecule;
+pub use crate::opt::sd::SteepestDecentOptimiser;
+pub use crate::pairs::distance;
+
+use crate::connectivity::bonds::{Bond, BondOrder};
+use crate::ff::rb::core::RepulsiveExponent;
+use crate::ff::uff::{UFFAtomType, ATOM_TYPES, INVERSION_CENTERS};
+use crate::ff::{
+    HarmonicAngleTypeA, HarmonicAngleTypeB, HarmonicBond, InversionDihedral, LennardJones12x6,
+    RepulsiveInverseDistance, TorsionalDihedral,
+};
+
+/// One energy term as plain data: a kind tag, the atom indices as stored, the parameters as stored
+#[derive(Debug, Clone, PartialEq)]
+pub struct TermDesc {
+    pub kind: &'static str,
+    pub idxs: Vec<usize>,
+    pub params: Vec<f64>,
+}
+
+/// Connectivity of a molecule as plain data, in the iteration order of the containers
+#[derive(Debug, Clone, Default)]
+pub struct Conn {
+    pub bonds: Vec<(usize, usize, f64)>,
+    pub angles: Vec<[usize; 3]>,
+    pub propers: Vec<[usize; 4]>,
+    pub impropers: Vec<[usize; 4]>,
+    pub nb_pairs: Vec<(usize, usize)>,
+}
+
+/// An atom as the typing code sees it
+#[derive(Debug, Clone)]
+pub struct AtomView {
+    pub idx: usize,
+    pub symbol: String,
+    pub neighbours: Vec<usize>,
+    pub formal_charge: f64,
+}
+
+/// An assigned (or tabulated) UFF atom type as plain data
+#[derive(Debug, Clone)]
+pub struct AtomTypeView {
+    pub name: String,
+    pub atomic_symbol: String,
+    pub bridging: bool,
+    pub aromatic: bool,
+    pub valency: usize,
+    pub oxidation_state: usize,
+    pub environment: String,
+    pub r: f64,
+    pub theta: f64,
+    pub x: f64,
+    pub d: f64,
+    pub zeta: f64,
+    pub z_eff: f64,
+    pub v_phi: f64,
+    pub bend_type: char,
+    pub bend_n: f64,
+    pub is_main_group: bool,
+    pub hybridisation: String,
+    pub u_phi: f64,
+    pub gmp_electronegativity: f64,
+}
+
+pub(crate) fn view_atom_type(t: &UFFAtomType) -> AtomTypeView {
+    // Some rows of the table carry a symbol that is not an element; the derived quantities
+    // below unwrap the symbol lookup, so they are only evaluated where it succeeds
+    let known = AtomicNumber::from_string(t.atomic_symbol).is_ok();
+    AtomTypeView {
+        name: t.name.to_string(),
+        atomic_symbol: t.atomic_symbol.to_string(),
+        bridging: t.bridging,
+        aromatic: t.aromatic,
+        valency: t.valency,
+        oxidation_state: t.oxidation_state,
+        environment: format!("{:?}", t.environment),
+        r: t.r,
+        theta: t.theta,
+        x: t.x,
+        d: t.d,
+        zeta: t.zeta,
+        z_eff: t.z_eff,
+        v_phi: t.v_phi,
+        bend_type: t.bend_type(),
+        bend_n: t.bend_n(),
+        is_main_group: known && t.is_main_group(),
+        hybridisation: if known {
+            format!("{:?}", t.hybridisation())
+        } else {
+            "Invalid".to_string()
+        },
+        u_phi: if known { t.u_phi() } else { f64::NAN },
+        gmp_electronegativity: if known {
+            t.gmp_electronegativity()
+        } else {
+            f64::NAN
+        },
+    }
+}
+
+/// The compiled-in atom type table
+pub fn atom_type_table() -> Vec<AtomTypeView> {
+    ATOM_TYPES.iter().map(view_atom_type).collect()
+}
+
+/// The compiled-in inversion table: (name, k, c0, c1, c2)
+pub fn inversion_table() -> Vec<(String, f64, f64, f64, f64)> {
+    INVERSION_CENTERS
+        .iter()
+        .map(|c| (c.name.to_string(), c.k, c.c0, c.c1, c.c2))
+        .collect()
+}
+
+/// Connectivity of a molecule
+pub fn connectivity(mol: &Molecule) -> Conn {
+    Conn {
+        bonds: mol
+            .connectivity
+            .bonds
+            .iter()
+            .map(|b| (b.pair.i, b.pair.j, b.order.value()))
+            .collect(),
+        angles: mol
+            .connectivity
+            .angles
+            .iter()
+            .map(|a| [a.i, a.j, a.k])
+            .collect(),
+        propers: mol
+            .connectivity
+            .proper_dihedrals
+            .iter()
+            .map(|d| [d.i, d.j, d.k, d.l])
+            .collect(),
+        impropers: mol
+            .connectivity
+            .improper_dihedrals
+            .iter()
+            .map(|d| [d.c, d.i, d.j, d.k])
+            .collect(),
+        nb_pairs: mol
+            .non_bonded_pairs
+            .iter()
+            .map(|p| (p.pair.i, p.pair.j))
+            .collect(),
+    }
+}
+
+/// Atoms as `Molecule::atoms()` returns them (neighbour lists in container iteration order)
+pub fn atoms(mol: &Molecule) -> Vec<AtomView> {
+    mol.atoms()
+        .iter()
+        .map(|a| AtomView {
+            idx: a.idx,
+            symbol: a.atomic_symbol().to_string(),
+            neighbours: a.bonded_neighbours.clone(),
+            formal_charge: a.formal_charge,
+        })
+        .collect()
+}
+
+pub fn num_atoms(mol: &Molecule) -> usize {
+    mol.num_atoms()
+}
+
+/// The body of `from_atomic_nums_and_coords`' four fills, on the molecule's current coordinates,
+/// after clearing (what `generate_connectivty` does)
+pub fn regenerate_connectivity(mol: &mut Molecule) {
+    mol.connectivity.clear();
+    mol.add_bonds();
+    mol.add_angles();
+    mol.add_dihedrals();
+    mol.add_non_bonded_pairs();
+}
+
+/// Only bond perception (`add_bonds`), which clears the bond set itself
+pub fn perceive_bonds(mol: &mut Molecule) {
+    mol.add_bonds();
+}
+
+/// Install exactly these bonds (order values 1, 1.5, 2, 3, 4), inserted in the given sequence, and
+/// derive angles, dihedrals and non-bonded pairs from them with the crate's own functions
+pub fn install_bonds(mol: &mut Molecule, bonds: &[(usize, usize, f64)]) {
+    mol.connectivity.clear();
+    for (i, j, order) in bonds {
+        let mut bond = Bond::from_atom_indices(*i, *j);
+        bond.order = BondOrder::from_value(order);
+        mol.connectivity.bonds.insert(bond);
+    }
+    mol.add_angles();
+    mol.add_dihedrals();
+    mol.add_non_bonded_pairs();
+}
+
+/// Is the angle i-j-k treated as linear by the torsion filter?
+pub fn angle_is_close_to_linear(mol: &Molecule, i: usize, j: usize, k: usize) -> bool {
+    mol.angle_is_close_to_linear(i, j, k)
+}
+
+/// Build a term from plain data
+pub fn make_term(desc: &TermDesc) -> Box<dyn EnergyFunction> {
+    let ix = &desc.idxs;
+    let p = &desc.params;
+    match desc.kind {
+        "bond" => Box::new(HarmonicBond {
+            i: ix[0],
+            j: ix[1],
+            r0: p[0],
+            k_ij: p[1],
+        }),
+        "angle_a" => Box::new(HarmonicAngleTypeA {
+            i: ix[0],
+            j: ix[1],
+            k: ix[2],
+            k_ijk: p[0],
+            n: p[1],
+        }),
+        "angle_b" => Box::new(HarmonicAngleTypeB {
+            i: ix[0],
+            j: ix[1],
+            k: ix[2],
+            k_ijk: p[0],
+            c0: p[1],
+            c1: p[2],
+            c2: p[3],
+        }),
+        "torsion" => Box::new(TorsionalDihedral {
+            i: ix[0],
+            j: ix[1],
+            k: ix[2],
+            l: ix[3],
+            phi0: p[0],
+            n_phi: p[1],
+            v_phi: p[2],
+        }),
+        "inversion" => Box::new(InversionDihedral {
+            c: ix[0],
+            i: ix[1],
+            j: ix[2],
+            k: ix[3],
+            c0: p[0],
+            c1: p[1],
+            c2: p[2],
+            k_cijk: p[3],
+        }),
+        "lj" => Box::new(LennardJones12x6 {
+            i: ix[0],
+            j: ix[1],
+            sigma: p[0],
+            d: p[1],
+        }),
+        "repulsion" => Box::new(RepulsiveInverseDistance {
+            i: ix[0],
+            j: ix[1],
+            c: p[0],
+            exponent: RepulsiveExponent { value: p[1] as i32 },
+        }),
+        other => panic!("unknown term kind {}", other),
+    }
+}
+
+/// Driver for the Python wrapper type, callable from Rust
+pub struct Wrapper {
+    inner: crate::PyMoleculeWrapper,
+}
+
+impl Wrapper {
+    pub fn from_atomic_symbols(symbols: &[&str]) -> Self {
+        Wrapper {
+            inner: crate::PyMoleculeWrapper::from_atomic_symbols(symbols.to_vec()),
+        }
+    }
+    pub fn from_xyz_file(filename: &str) -> Self {
+        Wrapper {
+            inner: crate::PyMoleculeWrapper::from_xyz_file(filename),
+        }
+    }
+    pub fn set_bond_orders(&mut self, bond_orders: Vec<f64>) {
+        self.inner.set_bond_orders(bond_orders)
+    }
+    pub fn set_coordinates(&mut self, coordinates: Vec<f64>) {
+        self.inner.set_coordinates(coordinates)
+    }
+    pub fn generate_connectivity(&mut self) {
+        self.inner.generate_connectivty()
+    }
+    pub fn build_3d(&mut self) {
+        self.inner.build_3d()
+    }
+    pub fn optimise(&mut self) {
+        self.inner.optimise()
+    }
+    pub fn write_xyz_file(&self, filename: &str) {
+        self.inner.write_xyz_file(filename)
+    }
+    pub fn molecule(&self) -> &Molecule {
+        &self.inner.molecule
+    }
+    pub fn molecule_mut(&mut self) -> &mut Molecule {
+        &mut self.inner.molecule
+    }
+}
